@@ -56,6 +56,8 @@ def run_cl(ck, cmd, clauses, known_scenarios):
             ck.extra["stale_known_findings"] = stale
             ck.notes.append("known finding no longer reproduced (stale entry?): " + ", ".join(stale))
             print("NOTE: known finding no longer reproduced by its witness scenario (stale entry?): " + ", ".join(stale))
+    if ck.tier == "thorough" and not ck.replay:
+        ck.coqchk(["GM.Props." + ck.pid])
     ck.evaluations = ck.stats.get("events", 0)
     ck.distinct = ck.stats.get("model_distinct", 0)
     ck.extra["scenarios"] = ck.stats.get("scenarios", 0)
